@@ -123,3 +123,13 @@ package epubdoc
 //@   property C19
 //@   flags callsites
 //@   callsite MarkdownWithOptions(o) requires requested_mode_is_the_mode_used: o.NavigationExclusion == opts.NavigationExclusion
+
+// ---- C18: the package document is the FIRST rootfile of the container that qualifies (OCF: the first rootfile is the
+// default rendition); a later one is never preferred ----
+//@ spec func pkgRootfile(rf rootfile) bool = (rf.MediaType == "application/oebps-package+xml" || rf.MediaType == "") && rf.FullPath != ""
+//@ func parseContainer results (res, err)
+//@   property C18
+//@   flags nosafety
+//@   loop 1:
+//@     invariant no_earlier_rootfile_qualified: forall k int :: {container.Rootfiles.Rootfile[k]} 0 <= k && k < $i ==> !pkgRootfile(container.Rootfiles.Rootfile[k])
+//@   atreturn#5 returned_at_the_first_qualifying_rootfile: pkgRootfile(rf) && sameseq(rf.FullPath, container.Rootfiles.Rootfile[$i].FullPath)
